@@ -234,6 +234,15 @@ class atomic
   T operator&=(T d) noexcept { return static_cast<T>(fetch_and(d) & d); }
   T operator^=(T d) noexcept { return static_cast<T>(fetch_xor(d) ^ d); }
 
+  // C++20 waiting: modelled as a yielding spin (spurious wake-ups are allowed by the standard)
+  void
+  wait(T old, std::memory_order m = std::memory_order_seq_cst) const noexcept
+  {
+    while (load(m) == old) yield_hint();
+  }
+  void notify_one() noexcept { pre_op(kHarness, this); }
+  void notify_all() noexcept { pre_op(kHarness, this); }
+
   // harness-only: raw value without a scheduling point
   T vs_raw() const noexcept { return v_; }
 };
